@@ -593,6 +593,9 @@ func TestC18EveryFlagOverFile(t *testing.T) {
 type SaveScenario struct {
 	Via    string `json:"via"`
 	Values []KV   `json:"values"`
+	// Over: a longer configuration file already exists at the destination (an earlier save with
+	// longer values): saving must replace it, not merely overwrite its beginning
+	Over bool `json:"over,omitempty"`
 }
 
 func runSaveLoad(sc SaveScenario, tmp string) world.Verdict {
@@ -627,6 +630,16 @@ func runSaveLoad(sc SaveScenario, tmp string) world.Verdict {
 		}
 	}
 	desc := fmt.Sprintf("[%s] saved %v", sc.Via, sc.Values)
+	if sc.Over {
+		prior := cloneConfig(written)
+		prior.DA.Namespace = strings.Repeat("earlier-and-longer-", 40)
+		prior.P2P.Peers = strings.Repeat("/ip4/10.0.0.1/tcp/26656/p2p/12D3KooWearlier,", 20)
+		if err := prior.SaveAsYaml(); err != nil {
+			return world.Verdict{Excluded: true}
+		}
+		labels = append(labels, "saved-over-longer-file")
+		desc += " over an existing longer file"
+	}
 	model := cloneConfig(written)
 	var saveErr error
 	var pan any
@@ -700,7 +713,7 @@ func runSaveLoad(sc SaveScenario, tmp string) world.Verdict {
 }
 
 func genSaveScenario(t *rapid.T) SaveScenario {
-	sc := SaveScenario{Via: rapid.SampledFrom(vias).Draw(t, "via")}
+	sc := SaveScenario{Via: rapid.SampledFrom(vias).Draw(t, "via"), Over: rapid.IntRange(0, 3).Draw(t, "over") == 0}
 	var cand []*leaf
 	for i := range leaves {
 		if !exemptFields[leaves[i].GoName] {
